@@ -322,3 +322,72 @@ class _run:
     # brackets are the last thing written, after whole records only
     def excensures_aborted_session_leaves_a_closed_log(frame):
         return True if not hasattr(frame, 'game_log_writer') else _log_complete(frame.game_log_writer)
+
+
+# ---- scenario: alerted calls through the table manager (C19) -------------------------------------
+
+from pyvc import strings as _XS
+import z3 as _z3
+
+SCENARIO_CALLS = (Bid.Pass, Bid.NT7)
+
+
+def _alerted_call_script(seat):
+    """Queue.get() for seat `seat`: one of its call messages in ANY letter case, followed by blanks,
+    'Alert.' in any letter case and optional blanks (what a foreign client may send)."""
+    def script(it, q):
+        ctx = it.ctx
+        k = ctx.fresh_int('scenario_call')
+        ctx.assume_type(_z3.And(k >= 0, k < len(SCENARIO_CALLS)))
+        call = SCENARIO_CALLS[ctx.decide_among(k, list(range(len(SCENARIO_CALLS))))]
+        plain = _XS.case_variants(ctx, PR.enc_call(seat, call))
+        ws1 = _XS.Atom(ctx.fresh_name('ws1'), only=' \t', minlen=1)
+        ctx.assume_type(_z3.Length(ws1.t) >= 1)
+        ws2 = _XS.Atom(ctx.fresh_name('ws2'), only=' \t')
+        msg = _XS.str_concat(_XS.str_concat(_XS.str_concat(plain, _XS.XStr([(True, ws1)])),
+                                            _XS.case_variants(ctx, 'Alert.', 'al')),
+                             _XS.XStr([(True, ws2)]))
+        q.fields['ghost_call'] = call
+        q.fields['ghost_plain'] = plain
+        return msg
+    return script
+
+
+def _scripted_queue(seat):
+    return Ext('queue', dict(out=TraceList(), gets=TraceList(), interruptible=Const(False),
+                             script=Const(_alerted_call_script(seat)), ghost_call=Const(None),
+                             ghost_plain=Const(None)))
+
+
+AlertScenarioServer = Obj(Server, dict(
+    ServerShape.fields, received_message_queues=Dict({p: _scripted_queue(p) for p in Player})))
+
+
+def _alerted_call_is_understood(self, iter, bid, bid_message):
+    """C19 through the table manager: an alerted call in any letter case is understood as the call
+    (legal or not), and what is relayed is the call message without the alert suffix."""
+    a = opt_or(iter.bidding_env._BiddingPhase__active_player, N)
+    q = self.received_message_queues[a]
+    return conj(bid is q.ghost_call, bid_message == q.ghost_plain)
+
+
+from pyvc.dsl import REGISTRY as _REG2
+_REG2.fns['bridge_env.network_bridge.server.Server.bidding_phase'].props.append('C19')
+def _alerted_call_never_rejected_as_unparseable(frame):
+    """... in particular the session is not abandoned because the alerted call was not understood
+    (it may still be abandoned because the call is illegal in the position)."""
+    from pyvc.speclib import local_assigned
+    return local_assigned(frame, 'bidding_phase_state')
+
+
+_REG2.fns['bridge_env.network_bridge.server.Server.bidding_phase'].variants = {
+    'alerted-calls': dict(
+        props=['C19'],
+        exc_ensures=[('alerted_call_never_rejected_as_unparseable',
+                      _alerted_call_never_rejected_as_unparseable)],
+        params=dict(self=AlertScenarioServer),
+        loops={0: LoopContract(invariant=_bid_inv,
+                               havoc_heap=dict(bidding_env=BPShape,
+                                               **{'self.sent_message_queues':
+                                                  Dict({p: QueueReset for p in Player})}),
+                               body_ensures=dict(alerted_call_is_understood=_alerted_call_is_understood))})}
